@@ -851,7 +851,7 @@ def check(ctx, only=None):
         for mod in modules:
             replan(mod, None)
     else:
-        nmod, nsrc = (8, 7) if ctx.thorough() else (1, 7)
+        nmod, nsrc = (8, 7) if ctx.thorough() else (1, 6)
         modules = []
         for j in range(nmod):
             srcs = [gen_src(ctx.rng, k, renamed) for k in range(nsrc)]
